@@ -2,6 +2,8 @@
 From Coq Require Import NArith ZArith List Lia.
 From Mtbl Require Import gen.Consts model.Bytes model.Order model.Block model.Writer model.WriteLoop
   proofs.WriterProofs proofs.WriteLoopProofs.
+(* source ties: the statements of the C functions the model follows (gen/Ties.v is regenerated from /repo on every run) *)
+From Mtbl Require props.Ties_C20.
 Local Open Scope N_scope.
 
 (* T20a: one _write_all call under ANY outcome sequence: either exactly the
